@@ -202,6 +202,22 @@ def run(ctx, replay=None):
             k = n_total // len(profs)
             progs += gen.generate(ctx.seed * 1000 + pi, k, pf, 'quick' if quick else 'thorough')
             per_profile[pf] = per_profile.get(pf, 0) + k
+    # C10: every fourth program also declares a makespan objective and is set up with the built-in optimiser -- the assertion
+    # set handed to z3 must be the same (C15_options_do_not_change_assertions), optional constraints included
+    kw_by_idx = {}
+    if ctx.prop == 'C10' and replay is None:
+        for i in range(0, len(progs), 4):
+            if progs[i] and progs[i][0][0] == 'ONewProblem' and not any(o[0] == 'ONewObjective' for o in progs[i]):
+                progs[i] = list(progs[i]) + [('ONewObjective', ('OMakespan',), terms.N(900))]
+                kw_by_idx[i] = {'optimizer': 'optimize'}
+    # C09 / C02: every third program without objectives is built in two stages, with a solver initialised (and dropped) in
+    # between: the constraint system of the finished problem must not depend on that
+    mid_by_idx = {}
+    if ctx.prop in ('C09', 'C02') and replay is None:
+        for i in range(1, len(progs), 3):
+            p_ = progs[i]
+            if len(p_) >= 4 and p_[0][0] == 'ONewProblem' and not any(o[0] == 'ONewObjective' for o in p_):
+                mid_by_idx[i] = max(1, len(p_) - 2 - (i % 3))
     # ---- 3. model: bulk route, plus kernel route on a slice ----
     t1 = time.time()
     shards = []
@@ -226,7 +242,8 @@ def run(ctx, replay=None):
     # ---- 4. tie + sweep ----
     t2 = time.time()
     results = tie.run_tie(progs, reports, {'spec_prefixes': cfg['spec'], 'sweep': bool(cfg['spec']),
-                                           'lost_probe': ctx.prop in ('C05', 'C06'), 'seed': ctx.seed, 'lost_tries': 4 if quick else 8})
+                                           'lost_probe': ctx.prop in ('C05', 'C06'), 'seed': ctx.seed, 'lost_tries': 4 if quick else 8,
+                                           'solver_kw_by_idx': kw_by_idx, 'mid_init_by_idx': mid_by_idx})
     t_tie = time.time() - t2
     # ---- 5. decision ----
     stats = collections.Counter()
